@@ -355,4 +355,20 @@ theorem parseDefL_print (f : DefFile) (h : f.valid = true) : parseDefL (printDef
 theorem parseDef_print (f : DefFile) (h : f.valid = true) : parseDef (printDef f) = some f := by
   simp [parseDef, printDef, String.toList_ofList, parseDefL_print f h]
 
+/-- `allSome` succeeds exactly on a list without `none`, with the values in order -/
+theorem allSome_eq_some {α : Type} (l : List (Option α)) (r : List α) : allSome l = some r ↔ l = r.map some := by
+  induction l generalizing r with
+  | nil => cases r <;> simp [allSome]
+  | cons x xs ih =>
+    cases x with
+    | none => cases r <;> simp [allSome]
+    | some a =>
+      cases r with
+      | nil => simp [allSome]
+      | cons b bs =>
+        simp only [allSome, Option.map_eq_some_iff, List.map_cons, List.cons.injEq, Option.some.injEq]
+        constructor
+        · rintro ⟨r', h1, rfl, rfl⟩; exact ⟨rfl, (ih _).mp h1⟩
+        · rintro ⟨rfl, h⟩; exact ⟨bs, (ih _).mpr h, rfl, rfl⟩
+
 end KV.DefText
